@@ -732,41 +732,52 @@ def register(I):
         return ()
 
     # ----------------------------------------------------------------- iterators
-    def drive_paths(I, it, st, unordered_ok=False):
-        """evaluate an iterator with pending adaptors -> (st', items, [(st_p, Panic)...]).
-        Closure calls are threaded through the state; a conditional panic inside a closure splits
-        off a panic path and the remaining path continues."""
+    def drive_multi(I, it, st, unordered_ok=False):
+        """evaluate an iterator with pending adaptors -> ([(st', items)...], [(st_p, Panic)...]).
+        Closure calls are threaded through the state; forks inside a closure (several outcomes, conditional
+        panics) split the evaluation into several paths."""
         if isinstance(it, UnorderedIter) and not unordered_ok:
             raise Unsupported("result depends on HashMap iteration order (consumer is not order-insensitive)")
-        items = list(it.items)
+        paths = [(st, list(it.items))]
         panics = []
-        cur = st
         for op in it.ops:
             kind = op[0]
             if kind in ("map", "filter_map"):
-                out = []
-                for x in items:
-                    outs = I.call_value(op[1], [x], cur)
-                    normal = [(s, v) for s, v in outs if not isinstance(v, Panic)]
-                    panics.extend((s, v) for s, v in outs if isinstance(v, Panic))
-                    if not normal:
-                        return None, None, panics
-                    if len(normal) > 1:
-                        raise Unsupported("iterator adaptor closure returned several unmerged outcomes")
-                    cur, r = normal[0]
-                    if kind == "map":
-                        out.append(r)
-                    else:
-                        if isinstance(r, Union):
-                            raise Unsupported("symbolic filter_map result")
-                        if r.variant == "Some":
-                            out.append(r.fields[0])
-                items = out
+                nxt_paths = []
+                for cur, items in paths:
+                    partial = [(cur, [])]
+                    for x in items:
+                        step = []
+                        for s0, out in partial:
+                            outs = I.call_value(op[1], [x], s0)
+                            for s1, r in outs:
+                                if isinstance(r, Panic):
+                                    panics.append((s1, r))
+                                elif kind == "map":
+                                    step.append((s1, out + [r]))
+                                else:
+                                    if isinstance(r, Union):
+                                        raise Unsupported("symbolic filter_map result")
+                                    step.append((s1, out + [r.fields[0]] if r.variant == "Some" else out))
+                        partial = step
+                        if len(partial) > 256:
+                            raise Unsupported("too many paths inside an iterator adaptor")
+                    nxt_paths.extend(partial)
+                paths = nxt_paths
             elif kind == "enumerate":
-                items = [(i, x) for i, x in enumerate(items)]
+                paths = [(s0, [(i, x) for i, x in enumerate(items)]) for s0, items in paths]
             else:
                 raise Unsupported("iterator adaptor " + kind)
-        return cur, items, panics
+        return paths, panics
+
+    def drive_paths(I, it, st, unordered_ok=False):
+        """single-path variant: (st', items, panics); st' is None when every path panicked"""
+        paths, panics = drive_multi(I, it, st, unordered_ok)
+        if not paths:
+            return None, None, panics
+        if len(paths) > 1:
+            raise Unsupported("iterator adaptor closure forked where a single path is required")
+        return paths[0][0], paths[0][1], panics
 
     def drive(I, it, st):
         """as drive_paths, for contexts that cannot continue after a conditional panic; the caller's
@@ -781,10 +792,10 @@ def register(I):
     I.drive_iter = drive
 
     def consume(I, it, st, k, unordered_ok=False):
-        """run consumer k(items, st') -> value | [(St, value)] on the driven iterator, keeping panic paths"""
-        cur, items, panics = drive_paths(I, it, st, unordered_ok)
+        """run consumer k(items, st') -> value | [(St, value)] on every path of the driven iterator, keeping panic paths"""
+        paths, panics = drive_multi(I, it, st, unordered_ok)
         outs = list(panics)
-        if cur is not None:
+        for cur, items in paths:
             r = k(items, cur)
             if isinstance(r, list):
                 outs.extend(r)
